@@ -7,6 +7,12 @@ PLUGIN_THEOREMS = ["crash_in_bind_restart_safe", "crash_elsewhere_restart_safe",
                    "after_restart_pods_keep_ips", "after_restart_resync_no_leak", "restart_world_fresh_informer"]
 
 KNOWN_FINDINGS = [
+    {"id": "K9", "status": "open", "tag": "c05-rollback-delete-fails",
+     "what": "when a multi-IP request is rolled back (a creation failed, e.g. on an administrator's reservation not yet seen) and "
+             "the DELETION of an object it had created fails too, the failure is only logged: the object stays in the store while "
+             "memory forgets the IP - store and memory disagree, a new process loads the IP as allocated to a key that never got "
+             "it; attributed only to histories in which a roll-back's deletion failed and only when taking exactly those objects "
+             "out makes the predicate true (found by the thorough tier, history random, step alloc_ranges fault=3)"},
     {"id": "F3", "status": "fixed", "commit": "cdfc2c2", "tag": "c05-reload-window",
      "what": "fixed: property=C05 cdfc2c2 ConfigurePool listed the store before taking cacheLock: an allocation made in that window "
              "was persisted but dropped from memory (witness agree_refuted_reload_window_old; scenario request-during-reload-list)"},
